@@ -27,7 +27,7 @@ def gen_lines(rng, tier):
         # software versions of the vendors the library recognises (it splits them into vendor and version) as well as unknown
         # ones; the version part may contain the vendor's own separator again (OpenSSH_for_Windows_8.1, IPSSH-6.9.0-beta)
         pre = rng.choice(['srv', 'srv', 'OpenSSH_', 'OpenSSH_for_Windows_', 'OpenSSH_7.4p1_hpn', 'dropbear_', 'dropbear_2019.78_', 'IPSSH-', 'IPSSH-6.9.0-',
-                          'cryptlib', 'Monaca', 'OpenSSH', 'dropbear-', 'IPSSH_'])
+                          'cryptlib', 'Monaca', 'OpenSSH', 'dropbear-', 'IPSSH_', 'OpenSSH__', 'IPSSH--', 'dropbear__'])
         if total - fixed < len(pre) + 1:
             pre = 'srv'
         sw = pre + ''.join(rng.choice(alpha + ('-' if pre != 'srv' else '')) for _ in range(total - fixed - len(pre)))
